@@ -1,1 +1,2 @@
 import Verif.Props.C20
+import Verif.Props.C03
